@@ -34,7 +34,7 @@ def _arm_budget():
     signal.signal(signal.SIGVTALRM, on_alarm)
     signal.setitimer(signal.ITIMER_VIRTUAL, CPU_BUDGET_S)
     try:
-        resource.setrlimit(resource.RLIMIT_AS, (6 << 30, 6 << 30))
+        resource.setrlimit(resource.RLIMIT_AS, (3 << 30, 3 << 30))
     except Exception:
         pass
 
@@ -83,14 +83,18 @@ def _compile_steps(vfs_dump: dict, steps: list[dict]) -> list[dict]:
         _arm_budget()
         try:
             try:
-                c.compile(src, st["main"])
-                out = {"ok": model.compile_digest(c)}
+                try:
+                    c.compile(src, st["main"])
+                    out = {"ok": model.compile_digest(c)}
+                except BudgetExceeded:
+                    raise
+                except BaseException as e:
+                    if isinstance(e, (KeyboardInterrupt, SystemExit)):
+                        raise
+                    _disarm_budget()
+                    out = sut.raised(e)
             except BudgetExceeded:
                 out = {"raised": "NO-ANSWER", "msg": f"compile() still running after {CPU_BUDGET_S}s of CPU", "where": "?"}
-            except BaseException as e:
-                if isinstance(e, (KeyboardInterrupt, SystemExit)):
-                    raise
-                out = sut.raised(e)
         finally:
             _disarm_budget()
         if "raised" in out:
@@ -108,7 +112,7 @@ def _compile_steps(vfs_dump: dict, steps: list[dict]) -> list[dict]:
     return outs
 
 
-def compile_steps(vfs_dump, steps, timeout=150):
+def compile_steps(vfs_dump, steps, timeout=90):
     return forkrun(_compile_steps, vfs_dump, steps, timeout=timeout)
 
 
@@ -695,7 +699,11 @@ def c10_run(item: dict) -> dict:
             return
         viol("only-documented-exception-types", f"raised:{o['raised']}", {"config": tag, "observed": {k: o[k] for k in ('raised', 'msg', 'where')}})
 
-    fresh = compile_once(w["vfs"], w["main"], w["lookup"])
+    try:
+        fresh = compile_once(w["vfs"], w["main"], w["lookup"])
+    except HarnessError as e:
+        # the simulated process died or never finished: for THIS property that is an answer that never came
+        fresh = {"raised": "NO-ANSWER", "msg": str(e)[:200], "where": "process died or exceeded its wall time"}
     res["configs"] += 1
     res["outcome"] = "ok" if "ok" in fresh else fresh["raised"]
     res["vfs_calls"] += sum(fresh.get("vfs_counts", {}).values())
@@ -707,6 +715,8 @@ def c10_run(item: dict) -> dict:
     steps = [{"op": "compile", "main": "/proj/SCRIPT/valid0.exps", "lookup": w["lookup"], "slot": 0},
              {"op": "compile", "main": w["main"], "lookup": w["lookup"], "slot": 0},
              {"op": "compile", "main": "/proj/SCRIPT/valid1.exps", "lookup": w["lookup"], "slot": 0}]
+    if fresh.get("raised") == "NO-ANSWER":
+        return res
     outs = compile_steps(v.dump(), steps)
     pristine = compile_once(v.dump(), "/proj/SCRIPT/valid1.exps", w["lookup"])
     res["configs"] += 4
